@@ -520,13 +520,14 @@ func (x *Exec) applyContract(fr *Frame, st *State, cc *ssa.CallCommon, callee *s
 		// a clause over the callee's own locals is proved inside the callee
 		// but says nothing a caller can use
 		var errs []string
-		post.errs = &errs
-		g := x.evalBool(post, c.Expr)
-		post.errs = nil
+		probe := post.child()
+		probe.st = st.clone()
+		probe.errs = &errs
+		x.evalBool(probe, c.Expr)
 		if len(errs) > 0 {
 			continue
 		}
-		st.assume(g)
+		st.assume(x.evalBool(post, c.Expr))
 	}
 	// a method re-establishes the object invariant of its receiver
 	if callee.Signature.Recv() != nil && len(args) > 0 && callee.Parent() == nil {
